@@ -350,6 +350,21 @@ func VerifH_ws_raw() {
 	if err := mux.registerService(sd, srv); err != nil {
 		vfFail("registerService failed: " + err.Error())
 	}
+	if vfBool() {
+		// an upgrade request on a connection that cannot be hijacked (HTTP/2 stream, wrapped writer):
+		// an error response, no crash, the handler is not started
+		w := newFakeRW()
+		r := &http.Request{
+			Method: "GET", URL: &url.URL{Path: "/v1/rooms/x"}, ProtoMajor: 1, ProtoMinor: 1, Host: "h",
+			Header: http.Header{"Upgrade": []string{"websocket"}, "Connection": []string{"Upgrade"}, "Sec-Websocket-Version": []string{"13"}, "Sec-Websocket-Key": []string{"dGhlIHNhbXBsZSBub25jZQ=="}},
+		}
+		mux.ServeHTTP(w, r)
+		w.finish()
+		vfCheck(srv.calls == 0, "a WebSocket handler was started although the connection could not be upgraded")
+		vfCheck(w.status >= 400, "a failed WebSocket upgrade was not answered with an error status")
+		vfCover("not-hijackable")
+		return
+	}
 	var stream []byte
 	switch vfChoice(4) {
 	case 0:
